@@ -4,6 +4,9 @@ from .. import env
 PROPERTY = "C09"
 CROSS_CHECK = True      # thorough: dumped assertion queries are re-decided by z3 4.8.12 and cvc5 1.0
 LEVEL = "model_checking"
+TECHNIQUE = ("symbolic execution of the real functions over z3 terms (SMT, bounded; one inductive step from an arbitrary valid state + bounded histories); "
+             "counterexamples replayed concretely.  That the growth rule does not depend on the geometry is decided by a sweep over a grid of concrete "
+             "(est_elements, rate, counter) configurations with symbolic bit arrays and positions - there the float statistics run as real Python floats")
 STUBS = ["array -> SymArray('B')", "bytes/int/Struct shadows (restore-from-export harness)"]
 ASSUMPTIONS = [
     "step / history harnesses: sub-filters use a one-hash geometry (rate 0.5 -> k = 1 for est 1..5; rate 0.3 -> k = 2 in thorough); that the growth rule does not depend on the geometry is NOT assumed but decided separately by the boundary sweep (concrete counters at the boundary, real float code, a grid of real geometries); membership itself is C01",
